@@ -24,7 +24,7 @@ func c01() *core.Check {
 		{Gen: "wl", N: 120000},
 		{Gen: "scale", N: 64 << 10},
 		{Gen: "scale", N: 288 << 10},
-		{Gen: "wrapcount"}, {Gen: "foldalias"}, {Gen: "qualified"}, {Gen: "gluelit"}, {Gen: "encatk"}, {Gen: "dialect"}, {Gen: "prose"}, {Gen: "doubled"},
+		{Gen: "wrapcount"}, {Gen: "foldalias"}, {Gen: "qualified"}, {Gen: "gluelit"}, {Gen: "encatk"}, {Gen: "dialect"}, {Gen: "prose"}, {Gen: "doubled"}, {Gen: "toktails"},
 	}
 	thorough := []Mix{
 		{Gen: "corpus"}, {Gen: "bytes"}, {Gen: "padded", N: 1}, {Gen: "trunc"},
@@ -38,7 +38,7 @@ func c01() *core.Check {
 		{Gen: "wl", N: 1500000},
 		{Gen: "scale", N: 64 << 10},
 		{Gen: "scale", N: 1 << 20},
-		{Gen: "wrapcount"}, {Gen: "foldalias"}, {Gen: "qualified"}, {Gen: "gluelit"}, {Gen: "encatk"}, {Gen: "dialect"}, {Gen: "prose"}, {Gen: "doubled"},
+		{Gen: "wrapcount"}, {Gen: "foldalias"}, {Gen: "qualified"}, {Gen: "gluelit"}, {Gen: "encatk"}, {Gen: "dialect"}, {Gen: "prose"}, {Gen: "doubled"}, {Gen: "toktails"},
 	}
 	return &core.Check{
 		ID:       "C01",
@@ -154,7 +154,7 @@ func c02() *core.Check {
 		{Gen: "scale", N: 256 << 10},
 		{Gen: "pairs", N: 64 << 10},
 		{Gen: "triples", N: 48 << 10},
-		{Gen: "wrapcount"}, {Gen: "foldalias"}, {Gen: "attrvals"}, {Gen: "nsattrs"}, {Gen: "elements"}, {Gen: "doubled"},
+		{Gen: "wrapcount"}, {Gen: "foldalias"}, {Gen: "attrvals"}, {Gen: "nsattrs"}, {Gen: "elements"}, {Gen: "doubled"}, {Gen: "toktails"},
 	}
 	thorough := []Mix{
 		{Gen: "corpus"}, {Gen: "bytes"}, {Gen: "padded", N: 1}, {Gen: "trunc"},
@@ -169,7 +169,7 @@ func c02() *core.Check {
 		{Gen: "pairs", N: 1 << 20},
 		{Gen: "allbytes", N: 4 << 20},
 		{Gen: "triples", N: 256 << 10},
-		{Gen: "wrapcount"}, {Gen: "foldalias"}, {Gen: "attrvals"}, {Gen: "nsattrs"}, {Gen: "elements"}, {Gen: "doubled"},
+		{Gen: "wrapcount"}, {Gen: "foldalias"}, {Gen: "attrvals"}, {Gen: "nsattrs"}, {Gen: "elements"}, {Gen: "doubled"}, {Gen: "toktails"},
 	}
 	return &core.Check{
 		ID:       "C02",
